@@ -616,7 +616,16 @@ void genC13(uint64_t seed, int tier, Scenario& sc) {
             gu::pushSend(sc, "stop");
             sc.ops.push_back("wait_bestmove");
         }
-        { pg::GenPos gp; pg::randomGame(r, (int)r.range(4, 30), false, gp); gu::pushSend(sc, gp.positionCmd); gu::pushSend(sc, "go nodes " + std::to_string(r.logRange(20000, 150000))); sc.ops.push_back("wait_bestmove"); }
+        {
+            // (a time-limited search consults updateTB for its root, a node-limited one does not)
+            pg::GenPos gp;
+            pg::randomGame(r, (int)r.range(4, 30), false, gp);
+            gu::pushSend(sc, gp.positionCmd);
+            long long nodes = r.logRange(20000, 150000);
+            if (r.chance(0.5)) gu::pushSend(sc, "go nodes " + std::to_string(nodes));
+            else gu::pushSend(sc, "go movetime " + std::to_string(std::max(1LL, nodes * sc.knobInt("node_cost_ns", 1000) / 1000000)));
+            sc.ops.push_back("wait_bestmove");
+        }
         for (int i = 0, n = (int)r.range(1, 3); i < n; i++) {
             gu::pushSend(sc, "position fen " + placementFen(r, big, 0));
             gu::pushSend(sc, "go infinite");
@@ -641,7 +650,15 @@ void genC13(uint64_t seed, int tier, Scenario& sc) {
         gu::pushSend(sc, "stop");
         sc.ops.push_back("wait_bestmove");
         if (r.chance(0.25)) gu::pushSend(sc, r.chance(0.5) ? "setoption name Clear Hash" : "ucinewgame"); // the table must be dropped and rebuilt, not reused
-        if (r.chance(0.2)) { pg::GenPos gp; pg::randomGame(r, (int)r.range(0, 30), false, gp); gu::pushSend(sc, gp.positionCmd); gu::pushSend(sc, "go nodes " + std::to_string(r.logRange(100, 3000))); sc.ops.push_back("wait_bestmove"); }
+        if (r.chance(0.2)) {
+            pg::GenPos gp;
+            pg::randomGame(r, (int)r.range(0, 30), false, gp);
+            gu::pushSend(sc, gp.positionCmd);
+            long long nodes = r.logRange(100, 3000);
+            if (r.chance(0.5)) gu::pushSend(sc, "go nodes " + std::to_string(nodes));
+            else gu::pushSend(sc, "go movetime " + std::to_string(std::max(1LL, nodes * sc.knobInt("node_cost_ns", 1000) / 1000000)));
+            sc.ops.push_back("wait_bestmove");
+        }
     }
     gu::pushSend(sc, "quit");
 }
